@@ -2,7 +2,7 @@
 CONSTANTS NT = 1
  Kinds1 = {"tcp-ip", "tcp-domain", "forward", "udp", "icmp", "shell", "shell-tty", "file-upload", "file-download"}
  Kinds2 = {"tcp-ip", "tcp-domain", "forward", "udp", "icmp", "shell", "shell-tty", "file-upload", "file-download"}
- RIDs = {} MaxData = 1000000 Classes = {} Adversary = FALSE EphPool = {} Dev = {} EmitVec = FALSE
+ RIDs = {} MaxData = 1000000 Classes = {} Adversary = FALSE EphPool = {} Lifecycle = FALSE Dev = {} EmitVec = FALSE
 INIT TraceInit
 NEXT TraceNext
 CONSTRAINT HighWater
